@@ -2,6 +2,8 @@ package main
 
 import (
 	"fmt"
+	"go/ast"
+	"os"
 	"go/constant"
 	"go/token"
 	"go/types"
@@ -131,6 +133,7 @@ type enc struct {
 	defs       map[string]string
 	guardOf    map[ssa.Value]guardInfo
 	coverOrd   int
+	loopStmt   map[*ssa.BasicBlock]token.Pos
 	frameAllowed map[string]bool
 	frameLocs  map[string][][]string
 	curPos     token.Pos
@@ -667,18 +670,92 @@ func (e *enc) findLoops() {
 			}
 		}
 	}
-	// ordinal: loops in source order of their header position
+	// ordinal: loops in source order of their `for`/`range` statement
 	var heads []*ssa.BasicBlock
 	for h := range e.loops {
 		heads = append(heads, h)
 	}
+	e.mapLoopsToSyntax()
 	sort.Slice(heads, func(i, j int) bool { return e.loopPos(heads[i]) < e.loopPos(heads[j]) })
 	for i, h := range heads {
 		e.loops[h].ord = i
+		if os.Getenv("GOVC_DEBUG_LOOPS") != "" && !e.discover {
+			fmt.Fprintf(os.Stderr, "LOOP %s #%d head=b%d pos=%s\n", e.name, i, h.Index, e.fn.Prog.Fset.Position(e.loopPos(h)))
+		}
+	}
+}
+
+// mapLoopsToSyntax assigns to every natural loop the for/range statement most of its own instructions
+// (those not inside a nested loop) lie in; instruction positions alone are unreliable (jumps of an enclosing
+// switch carry the switch's position).
+func (e *enc) mapLoopsToSyntax() {
+	e.loopStmt = map[*ssa.BasicBlock]token.Pos{}
+	syn := e.fn.Syntax()
+	if syn == nil {
+		return
+	}
+	type span struct{ pos, end token.Pos }
+	var stmts []span
+	ast.Inspect(syn, func(n ast.Node) bool {
+		switch x := n.(type) {
+		case *ast.FuncLit:
+			if ast.Node(x) != syn {
+				return false
+			}
+		case *ast.ForStmt:
+			stmts = append(stmts, span{x.Pos(), x.End()})
+		case *ast.RangeStmt:
+			stmts = append(stmts, span{x.Pos(), x.End()})
+		}
+		return true
+	})
+	innermost := func(p token.Pos) int {
+		best := -1
+		for i, s := range stmts {
+			if s.pos <= p && p < s.end && (best < 0 || s.pos >= stmts[best].pos) {
+				best = i
+			}
+		}
+		return best
+	}
+	for h, li := range e.loops {
+		own := map[*ssa.BasicBlock]bool{}
+		for b := range li.blocks {
+			own[b] = true
+		}
+		for h2, l2 := range e.loops {
+			if h2 != h && li.blocks[h2] {
+				for b := range l2.blocks {
+					delete(own, b)
+				}
+			}
+		}
+		votes := map[int]int{}
+		for b := range own {
+			for _, in := range b.Instrs {
+				if p := in.Pos(); p.IsValid() {
+					if k := innermost(p); k >= 0 {
+						votes[k]++
+					}
+				}
+			}
+		}
+		best, bv := -1, 0
+		for k, v := range votes {
+			if v > bv || (v == bv && best >= 0 && stmts[k].pos > stmts[best].pos) {
+				best, bv = k, v
+			}
+		}
+		if best >= 0 {
+			e.loopStmt[h] = stmts[best].pos
+		}
 	}
 }
 
 func (e *enc) loopPos(h *ssa.BasicBlock) token.Pos {
+	if p, ok := e.loopStmt[h]; ok {
+		return p
+	}
 	// position of the loop: smallest instruction position within the loop's blocks
 	best := token.Pos(1 << 40)
 	for b := range e.loops[h].blocks {
